@@ -86,6 +86,43 @@ def rs(r):
     return r.choice(["", "a", "hé", "abcdefgh", "x" * 17])
 
 
+def stale_handle_scenario(M, extra, fail, tags):
+    """a handle of an array item is taken, the item is replaced (same size, its dynamic fields divide the room differently), the
+    handle is pickled: what comes back is a NEW handle - it reads the item as a fresh view does, and a fitting assignment through it
+    stays inside the field (nothing of the old handle's stale bookkeeping travels with it)"""
+    xo = common.import_xobjects()
+    c0 = {"component": "pk", "corpus": "stale-handle-pickled"}
+    more = {"t": "q"} if extra.startswith("t") else {"z": [1]} if extra.startswith("z") else {}
+    try:
+        buf = xo.ContextCpu().new_buffer(2048)
+        arr = M.ArrNPS2([dict({"n": 1, "x": [1.0, 2.0, 3.0, 4.0], "s": "a", "y": [3]}, **more),
+                         dict({"n": 2, "x": [7.0], "s": "b", "y": [80, 81, 82]}, **more)], _buffer=buf)
+        other = M.PS2(dict({"n": 5, "x": [8.0], "s": "a", "y": [1, 2, 3, 4, 5, 6, 7]}, **more), _buffer=buf)
+        h = arr[0]
+        if int(h._size) != int(other._size):
+            return
+        arr[0] = other
+        p = pickle.loads(pickle.dumps(h))
+        fresh = M.PS2._from_buffer(p._buffer, int(p._offset))
+        tags["corpus.stale-handle-pickled"] += 1
+        if value(p) != value(fresh):
+            fail("unpickled-handle-differs-from-view", f"the unpickled handle reads {str(value(p))[:160]}, a view of its bytes {str(value(fresh))[:160]}", c0)
+            return
+        lo = int(fresh.y._offset)
+        hi = lo + int(fresh.y._get_size())
+        before = bytes(p._buffer.to_bytearray(0, p._buffer.capacity))
+        p.y = [9, 9, 9, 9, 9, 9, 9]
+        after = bytes(p._buffer.to_bytearray(0, p._buffer.capacity))
+        out = [i for i in range(len(before)) if before[i] != after[i] and not lo <= i < hi]
+        if out:
+            fail("write-through-unpickled-handle-outside-field", f"p.y = [9]*7 (it fits) changed bytes {out[:6]} outside the field's extent "
+                 f"[{lo},{hi})", c0)
+        elif [int(v) for v in M.PS2._from_buffer(p._buffer, int(p._offset)).y.to_nparray()] != [9] * 7:
+            fail("unusable:write-lost", "p.y = [9]*7 through the unpickled handle did not reach the field", c0)
+    except Exception as ex:
+        fail("unusable:" + type(ex).__name__, f"stale handle pickled: {type(ex).__name__}: {str(ex)[:160]}", c0)
+
+
 def ps2_args(r, extra):
     d = {"n": r.randint(-9, 9), "x": [float(r.randint(0, 9)) for _ in range(r.randrange(0, 4))], "s": rs(r),
          "y": [r.randint(-5, 5) for _ in range(r.randrange(0, 4))]}
@@ -141,6 +178,7 @@ def run_all(tier, seed):
 
     with common.scratch_cwd() as tmp:
         M, extra, mshape = make_module(tmp, r)
+        stale_handle_scenario(M, extra, fail, tags)
         for case in range(n_cases):
             if case % 8 == 7:
                 M, extra, mshape = make_module(tmp, r)
